@@ -444,6 +444,56 @@ class Body:
         live = self.live_blocks()
         return [i for i in live if self.blocks[i]["t"]["k"] == "return"]
 
+    def reachable_flag(self, start, flag_local, value=None, avoid_blocks=()):
+        """blocks reachable from `start` when the boolean local `flag_local` is tracked along the path
+        (constant stores update it, `switchInt(flag)` follows only the matching edge when it is known)"""
+        avoid_blocks = set(avoid_blocks)
+        seen = set()
+        work = [(start, value)]
+        out = set()
+        while work:
+            b, v = work.pop()
+            if (b, v) in seen or b in avoid_blocks:
+                continue
+            seen.add((b, v))
+            out.add(b)
+            bl = self.blocks[b]
+            for st in bl["s"]:
+                if st["lhs"] == [flag_local]:
+                    rv = st["rv"]
+                    if rv["r"] == "use" and "k" in rv["o"] and rv["o"]["k"].get("v") in (True, False):
+                        v = rv["o"]["k"]["v"]
+                    else:
+                        v = None
+            t = bl["t"]
+            if t["k"] == "call" and t["dest"] == [flag_local]:
+                v = None
+            if t["k"] == "switch":
+                p = t["d"].get("c") or t["d"].get("m")
+                neg = False
+                if p is not None and len(p) == 1 and p != [flag_local]:
+                    for st in bl["s"]:
+                        rv = st["rv"]
+                        if st["lhs"] == p and rv["r"] == "use" and (rv["o"].get("c") or rv["o"].get("m")) == [flag_local]:
+                            p = [flag_local]
+                        elif st["lhs"] == p and rv["r"] == "un" and rv["op"] == "Not" and (rv["o"].get("c") or rv["o"].get("m")) == [flag_local]:
+                            p = [flag_local]
+                            neg = True
+                if p == [flag_local] and v is not None:
+                    if neg:
+                        v_eff = not v
+                    else:
+                        v_eff = v
+                    tg = None
+                    for tv, tt in t["targets"]:
+                        if tv == (1 if v_eff else 0):
+                            tg = tt
+                    work.append((tg if tg is not None else t["otherwise"], v))
+                    continue
+            for s in self.succs()[b]:
+                work.append((s, v))
+        return out
+
     def must_pass(self, start, through, targets, after=True):
         """every path from (after) `start` to any block in `targets` passes a block in `through`"""
         through = set(through)
